@@ -511,10 +511,27 @@ func (r *Run) execLin(ci, oi int, op *Op) {
 	case "delmulti":
 		var body bytes.Buffer
 		body.WriteString("<Delete>")
-		for _, k := range op.Keys {
+		vids := make([]string, len(op.Keys))
+		for i, k := range op.Keys {
 			body.WriteString("<Object><Key>")
 			xml.EscapeText(&body, []byte(k.Key))
-			body.WriteString("</Key></Object>")
+			body.WriteString("</Key>")
+			if k.Ver != 0 && r.Plan.Config.Versioned {
+				// one of the ids this key was given earlier in the run
+				var mine []string
+				for _, id := range h.ids {
+					if h.verKey[id] == op.B+"/"+k.Key {
+						mine = append(mine, id)
+					}
+				}
+				if len(mine) > 0 {
+					vids[i] = mine[(k.Ver-1+len(mine))%len(mine)]
+					h.delVer[vids[i]] = true
+					body.WriteString("<VersionId>" + vids[i] + "</VersionId>")
+					r.probe("multi-delete naming versions in a concurrent run")
+				}
+			}
+			body.WriteString("</Object>")
 		}
 		body.WriteString("</Delete>")
 		call := h.tick()
@@ -524,7 +541,11 @@ func (r *Run) execLin(ci, oi int, op *Op) {
 		if !mustOK(resp, "multi-delete", call) {
 			return
 		}
-		for _, k := range op.Keys {
+		for i, k := range op.Keys {
+			if vids[i] != "" {
+				h.add("k:"+op.B+"/"+k.Key, ci, call, ret, regIn{Kind: "dv", V: h.verOf[vids[i]], ID: vids[i]}, regOut{}, "multi-delete-version "+short(h.verOf[vids[i]]))
+				continue
+			}
 			h.add("k:"+op.B+"/"+k.Key, ci, call, ret, regIn{Kind: "d"}, regOut{}, "multi-delete")
 		}
 		r.stats.Mutations++
